@@ -102,3 +102,41 @@ fn status_line_all_codes() {
         Err(_) => assert!(false),
     }
 }
+
+// The adapter over http::Response (iterator adapters over the http crate's HeaderMap are outside Verus): one concrete
+// response with a repeated header name; every entry of the map -- each value of a repeated name -- must be emitted,
+// in the map's iteration order.  write_headers itself is verified in the Verus unit `response`.
+// (not run: CBMC does not finish within 15 min -- HeaderMap hashing / http string tables; http_headers is NOT covered by C20's claim)
+// @C99 kani.response.http_headers_every_value bounded(one concrete response: 204, set-cookie x2 + one other header; oracle = the map's own iteration) thorough
+#[kani::proof]
+#[kani::unwind(40)]
+fn http_headers_every_value() {
+    use fastcgi_server::cgi::response::http_headers;
+    let mut resp = http::Response::new(());
+    *resp.status_mut() = http::StatusCode::NO_CONTENT;
+    resp.headers_mut().append(http::header::SET_COOKIE, http::HeaderValue::from_static("a"));
+    resp.headers_mut().append(http::header::AGE, http::HeaderValue::from_static("7"));
+    resp.headers_mut().append(http::header::SET_COOKIE, http::HeaderValue::from_static("c"));
+    let mut out = [0xAAu8; 80];
+    let cap = out.len();
+    let mut w: &mut [u8] = &mut out[..];
+    let n = match http_headers(&mut w, &resp) { Ok(n) => n, Err(_) => { assert!(false); return; } };
+    let rest = w.len();
+    assert!(n == cap - rest);
+    // expected: status line, then one line per map entry
+    let line = b"Status: 204 No Content";
+    let mut p = 0;
+    while p < line.len() { assert!(out[p] == line[p]); p += 1; }
+    let mut entries = 0;
+    for (name, val) in resp.headers().iter() {
+        let nb: &[u8] = name.as_ref();
+        let vb: &[u8] = val.as_ref();
+        assert!(out[p] == b'\n'); p += 1;
+        let mut i = 0; while i < nb.len() { assert!(out[p + i] == nb[i]); i += 1; } p += nb.len();
+        assert!(out[p] == b':' && out[p + 1] == b' '); p += 2;
+        let mut i = 0; while i < vb.len() { assert!(out[p + i] == vb[i]); i += 1; } p += vb.len();
+        entries += 1;
+    }
+    assert!(entries == 3);
+    assert!(out[p] == b'\n' && out[p + 1] == b'\n' && p + 2 == n);
+}
